@@ -12,7 +12,9 @@ META = {
 def run(ctx):
     q = ctx.quick()
     design = [{"steps": 5 if q else 6, "universe": "Small", "crash": False, "invariants": ["C08_Forward"], "witnesses": 40 if q else 400}]
-    plans = [{"universe": "", "rich": True, "sim": 8 if q else 60, "steps": 9 if q else 12, "cap": 300 if q else 5000, "seeds": 1 if q else 3},
+    plans = [{"cover": True, "universe": "Small", "steps": 5 if q else 6},
+             {"cover": True, "universe": "Small", "steps": 4 if q else 5, "rich": True, "crash": True, "cap": 3000 if q else 20000},
+             {"universe": "", "rich": True, "sim": 8 if q else 60, "steps": 9 if q else 12, "cap": 300 if q else 5000, "seeds": 1 if q else 3},
              {"universe": "Two", "rich": False, "sim": 10 if q else 80, "steps": 10 if q else 12, "cap": 250 if q else 4000, "seeds": 1 if q else 3},
              {"universe": "Small", "rich": False, "sim": 10 if q else 60, "steps": 10 if q else 12, "cap": 150 if q else 3000, "seeds": 1 if q else 2}]
     cov, mismatches, inconcl = smcheck.collect(ctx, {"C08"}, plans, design)
